@@ -202,10 +202,18 @@ def check(tier, seed, replay=None):
                 chk.violation("C13 spelling %r: %s" % (sdesc[case]["text"], what), {"recipe": sdesc[case], "flag": what})
             else:
                 raise ToolError("ExprSyntax.tla refuses the generated spelling %r: %s" % (sdesc[case]["text"], what))
+    # the same expression with a --set binding and written out, in every option position (two runs, same bytes)
+    truns = 0
+    if not replay:
+        trecs, tdescs, truns = EL.twin_records(jvh, rnd, 42 if quick else 1400, len(recs))
+        recs += trecs
+        descs += tdescs
+        for d in tdescs:
+            chk.nontrivial.add(json.dumps({"bound": d["bound"], "input": d["input"]}, sort_keys=True)[:500])
     flags, res = run_trace_spec("Trace_Expr", recs, "c13", nproc=4 if quick else 14)
     skipped = {c for k, c, w in flags if k == "SKIP"}
     chk.traces += len(recs) - len(skipped)
-    chk.evaluations = len(cases)
+    chk.evaluations = len(cases) + truns
     for j in sorted({0, len(descs) // 3, 2 * len(descs) // 3, len(descs) - 1}):
         chk.sample(descs[j])
     for kind, case, what in flags:
@@ -213,7 +221,7 @@ def check(tier, seed, replay=None):
             continue
         d = descs[case]
         if kind == "MISMATCH":
-            chk.violation("C13 %s: %s %s" % (d["kind"], what[:200], json.dumps(d)[:500]), {"recipe": plans[case], "flag": what, "desc": d})
+            chk.violation("C13 %s: %s %s" % (d["kind"], what[:200], json.dumps(d)[:500]), {"recipe": plans[case] if case < len(plans) else d, "flag": what, "desc": d})
         else:
             raise ToolError("%s flag from Trace_Expr: %s %s" % (kind, d, what))
     return chk.finish()
